@@ -13,7 +13,7 @@ def leg(test, module="rt", quick=(1000, 1), thorough=(10000, 16), race=False, ti
                 timeout_s=timeout_s, env=env or {}, fixed=fixed)
 
 HOOK_COMMITS = ["dd392ad"]
-FIX_COMMITS = ["e449346", "ba22cb7", "3039ef0", "273eefb", "cca5970"]
+FIX_COMMITS = ["e449346", "ba22cb7", "3039ef0", "273eefb", "cca5970", "2577b44"]
 
 ALL_PROPS = ["C%02d" % i for i in range(1, 21)]
 
@@ -87,7 +87,9 @@ CHECKS = {
     ),
     "C15": dict(
         title="Transport failure is detected, reported once and recoverable, repeatedly",
-        legs=[leg("TestC15History", quick=(250, 4), thorough=(4000, 16), timeout_s=3000, prefixes=["c15."])],
+        legs=[leg("TestC15History", quick=(400, 4), thorough=(4000, 15), timeout_s=3000, prefixes=["c15."]),
+              leg("TestC15Cut", fixed=True, timeout_s=3000)],
+        coverage_extra={"exhaustive_subspaces": "c15.cut enumerates every byte offset (0..len) of the multi-frame stream shapes x {EOF, I/O error} completely (quick: 1 shape, thorough: 5 shapes); c15.history is sampled"},
         level="fault_enumeration",
         technique="model-based property testing (rapid) of open/fail/reopen/close histories with fault injection on a scripted byte stream + exhaustive enumeration of cut offsets; reference model of the close state machine and monitor policy",
         rule=("Histories of up to 23 steps over the adapter transport on a scripted stream with a recording BaseFTransportMonitor (MaxReopenAttempts 0..4, waits 1..6 ms): "
@@ -99,6 +101,20 @@ CHECKS = {
         level_note="Trusted: scriptT's rendering of socket behaviour (a failed write also fails the read side; Read returns after Close). Monitor waits are scaled to milliseconds.",
         assumptions=["peer EOF is a clean close (read-loop comment and Java runtime's isCleanClose)", "monitor notifications are only required while the monitor runner is active (it terminates after a clean close or after giving up)"],
         design_ref="DESIGN.md §2 C15",
+    ),
+    "C13": dict(
+        title="Every call returns within its FContext timeout",
+        legs=[leg("TestC13Timeout", quick=(40, 4), thorough=(600, 16), timeout_s=3000, prefixes=["c13."])],
+        level="exploration",
+        technique="property-based testing (rapid) with injected peer stalls (silent, late, blocked write/flush, foreign op id) on scripted and real transports; outcome- and deadline-based oracle",
+        rule=("Batches of 1..8 concurrent calls, each on its own transport: adapter Request/Oneway over a scripted stream, NATS (silent subscribed responder, or none), HTTP (sleeping handler); "
+              "timeouts 1..300 ms and 1..999 us; peer: silent, late by 1..200 ms, Write blocks, Flush blocks, answers with another op id, no responder. "
+              "Non-trivial: anything but adapter+silent. Distinct: sha256 of the batch."),
+        level_text=("Exploration: every call must return no later than timeout + 400 ms (stated allowance; real violations are hangs), with a TIMED_OUT transport exception when no response "
+                    "arrived in time (a response late by < 30 ms races the deadline and may legally win), leave no registration behind, and the transport must serve a follow-up request."),
+        level_note="Trusted: wall clock with a generous allowance; a failing timed case is only reported if rapid reproduces it while shrinking.",
+        assumptions=["sub-millisecond timeouts are rounded up to 1 ms by the wire format (whole milliseconds)", "NATS without responder may answer SERVICE_NOT_AVAILABLE instead of TIMED_OUT"],
+        design_ref="DESIGN.md §2 C13",
     ),
 }
 
